@@ -25,7 +25,7 @@ func init() { core.Register(c08{}) }
 func (c08) ID() string    { return "C08" }
 func (c08) Level() string { return "exploration" }
 func (c08) Rule() string {
-	return "two case kinds. (sched) small programs - 2 clients x 1..2 ops or 3 clients x 1 op, op in {Put k, Delete k, Get k} on one shared, pre-populated key, optionally plus a client running Merge - are executed under the pause scheduler: every client goroutine blocks at each engine hook point (put.afterAppend, get.afterIndex, delete.afterCheck, delete.afterAppend, merge.afterRotate, merge.record, merge.beforeMarker, merge.done) until granted; a depth-first search over the grant choices enumerates every ordering of the hook-delimited segments (a granted client that neither parks nor returns within 25 ms is taken to be blocked on an engine lock and another client is granted: this only steers exploration); each execution yields a history. (stress) 2..16 clients x 30..80 ops over 1..4 keys, small DataFileSize, a concurrent Merge client in a third of the cases, stateless yield/sleep injection at the same hook points, -race build. Every history is recorded at the client boundary (call stamp before invoking, return stamp after the reply, one monotonic clock; every Put writes a unique value so a read identifies its write) and, completed by one final Get per key, is checked with porcupine v1.3.0 against a per-key register model (partitioned by key, 60 s timeout -> inconclusive); a returned error from Put/Delete/Get other than key-not-found is a violation; after quiescence the database is closed and reopened and every key must read what the final live Get read. Non-trivial: sched program with >=3 distinct realised interleavings, stress history in which >=2 clients' operations on one key overlapped in time; distinct = hash of the realised grant sequence resp. of the history"
+	return "two case kinds. (sched) small programs - 2 clients x 1..2 ops or 3 clients x 1 op, op in {Put k, Delete k, Get k, and a 40 KiB Put that makes the active file rotate inside the other clients' windows} on one shared, pre-populated key, optionally plus a client running Merge - are executed under the pause scheduler: every client goroutine blocks at each engine hook point (put.afterAppend, get.afterIndex, delete.afterCheck, delete.afterAppend, merge.afterRotate, merge.record, merge.beforeMarker, merge.done) until granted; a depth-first search over the grant choices enumerates every ordering of the hook-delimited segments (a granted client that neither parks nor returns within 25 ms is taken to be blocked on an engine lock and another client is granted: this only steers exploration); each execution yields a history. (stress) 2..16 clients x 30..80 ops over 1..4 keys, small DataFileSize, a concurrent Merge client in a third of the cases, stateless yield/sleep injection at the same hook points, -race build. Every history is recorded at the client boundary (call stamp before invoking, return stamp after the reply, one monotonic clock; every Put writes a unique value so a read identifies its write) and, completed by one final Get per key, is checked with porcupine v1.3.0 against a per-key register model (partitioned by key, 60 s timeout -> inconclusive); a returned error from Put/Delete/Get other than key-not-found is a violation; after quiescence the database is closed and reopened and every key must read what the final live Get read. Non-trivial: sched program with >=3 distinct realised interleavings, stress history in which >=2 clients' operations on one key overlapped in time; distinct = hash of the realised grant sequence resp. of the history"
 }
 func (c08) Assumptions() []string {
 	return []string{"porcupine v1.3.0 decides linearizability of the recorded history", "schedule control exists only at the hook points; pre-emptions inside a segment are reached by the stress part only",
@@ -61,12 +61,16 @@ func (c08) Cases(tier string, seed uint64) []core.Case {
 	if tier == "thorough" {
 		n22, n31 = 60, 27
 	}
+	// "bput" = a Put whose value is large enough that two of them rotate the active file,
+	// so that rotation happens inside the windows of the other clients
+	ops4 := []string{"put", "del", "get", "bput"}
 	for i := 0; i < n22; i++ {
-		progs = append(progs, [][]string{{ops[r.Intn(3)], ops[r.Intn(3)]}, {ops[r.Intn(3)], ops[r.Intn(3)]}})
+		progs = append(progs, [][]string{{ops4[r.Intn(4)], ops4[r.Intn(4)]}, {ops4[r.Intn(4)], ops4[r.Intn(4)]}})
 	}
 	for i := 0; i < n31; i++ {
-		progs = append(progs, [][]string{{ops[r.Intn(3)]}, {ops[r.Intn(3)]}, {ops[r.Intn(3)]}})
+		progs = append(progs, [][]string{{ops4[r.Intn(4)]}, {ops4[r.Intn(4)]}, {ops4[r.Intn(4)]}})
 	}
+	progs = append(progs, [][]string{{"bput", "bput"}, {"get", "get"}}, [][]string{{"bput", "bput"}, {"del", "put"}})
 	for i, p := range progs {
 		for _, mg := range []bool{false, true} {
 			if mg && len(p) == 3 && tier != "thorough" && i%2 == 0 {
@@ -497,10 +501,14 @@ func execOnce(cc c08Case, dir string, choices []int, caseSeed uint64, res *core.
 			for oi, op := range cc.Prog[ci] {
 				var o hop
 				switch op {
-				case "put":
+				case "put", "bput":
 					id := fmt.Sprintf("%d.%d", ci, oi)
 					o = hop{client: ci, in: regIn{"put", key, "v:" + id}, call: clock()}
-					if err := db.Put([]byte(key), mkUniq(id, 24)); err != nil {
+					size := 24
+					if op == "bput" {
+						size = 40 << 10
+					}
+					if err := db.Put([]byte(key), mkUniq(id, size)); err != nil {
 						o.out = "error:" + err.Error()
 					} else {
 						o.out = "ok"
